@@ -18,8 +18,10 @@ import (
 	"github.com/tink-crypto/tink-go/v2/hybrid/ecies"
 	"github.com/tink-crypto/tink-go/v2/hybrid/hpke"
 	"github.com/tink-crypto/tink-go/v2/insecurecleartextkeyset"
+	"github.com/tink-crypto/tink-go/v2/insecuresecretdataaccess"
 	"github.com/tink-crypto/tink-go/v2/jwt/jwtecdsa"
 	"github.com/tink-crypto/tink-go/v2/jwt/jwthmac"
+	"github.com/tink-crypto/tink-go/v2/jwt/jwtmldsa"
 	"github.com/tink-crypto/tink-go/v2/jwt/jwtrsassapss"
 	"github.com/tink-crypto/tink-go/v2/key"
 	"github.com/tink-crypto/tink-go/v2/keyderivation/prfbasedkeyderivation"
@@ -30,6 +32,7 @@ import (
 	"github.com/tink-crypto/tink-go/v2/prf/hkdfprf"
 	"github.com/tink-crypto/tink-go/v2/prf/hmacprf"
 	tinkpb "github.com/tink-crypto/tink-go/v2/proto/tink_go_proto"
+	"github.com/tink-crypto/tink-go/v2/secretdata"
 	"github.com/tink-crypto/tink-go/v2/signature/compositemldsa"
 	"github.com/tink-crypto/tink-go/v2/signature/ecdsa"
 	"github.com/tink-crypto/tink-go/v2/signature/ed25519"
@@ -55,6 +58,9 @@ type Target struct {
 	Big  bool // outputs of a kilobyte or more
 	Slow bool // key generation takes a noticeable fraction of a second (RSA, SLH-DSA small)
 	Full bool // thorough tier only
+	// NoReadback: a keyset of this key cannot be parsed back (ML-DSA VariantNoPrefixWithPrehashID, known
+	// finding): several handles / processes share the key by rebuilding it from its bytes (Rebuild).
+	NoReadback bool
 }
 
 func must[T any](v T, err error) T {
@@ -270,7 +276,29 @@ func Targets(full bool) []Target {
 		Params: kp(compositemldsa.NewParameters(compositemldsa.ECDSAP256, compositemldsa.MLDSA65, compositemldsa.VariantTink))})
 	add(Target{Name: "COMPOSITE-MLDSA65-ED25519/NO_PREFIX", Class: "sig", Kind: "sig", Cfg: m{"variant": "NO_PREFIX"}, Cost: 1, Big: true,
 		Params: kp(compositemldsa.NewParameters(compositemldsa.Ed25519, compositemldsa.MLDSA65, compositemldsa.VariantNoPrefix))})
+	// ---------------------------------------------------------------- pre-hash signing (external mu): signprehash.NewPrehashSigner
+	for _, c := range []struct {
+		inst mldsa.Instance
+		n    string
+	}{{mldsa.MLDSA44, "MLDSA44"}, {mldsa.MLDSA65, "MLDSA65"}, {mldsa.MLDSA87, "MLDSA87"}} {
+		add(Target{Name: c.n + "-PREHASH/NO_PREFIX_WITH_PREHASH_ID", Class: "prehash", Params: kp(mldsa.NewParameters(c.inst, mldsa.VariantNoPrefixWithPrehashID)),
+			Kind: "sig", Cfg: m{"variant": "NO_PREFIX"}, Cost: 1, Big: true, NoReadback: true})
+	}
 	// ---------------------------------------------------------------- JWT signatures (randomized schemes)
+	add(Target{Name: "JWT-ES384", Class: "jwtsig", Params: kp(jwtecdsa.NewParameters(jwtecdsa.Base64EncodedKeyIDAsKID, jwtecdsa.ES384)),
+		Kind: "sig", Cfg: m{"variant": "NO_PREFIX"}, Cost: 1})
+	add(Target{Name: "JWT-ES512", Class: "jwtsig", Params: kp(jwtecdsa.NewParameters(jwtecdsa.IgnoredKID, jwtecdsa.ES512)),
+		Kind: "sig", Cfg: m{"variant": "NO_PREFIX"}, Cost: 1})
+	add(Target{Name: "JWT-MLDSA65", Class: "jwtsig", Params: kp(jwtmldsa.NewParameters(jwtmldsa.Base64EncodedKeyIDAsKID, jwtmldsa.MLDSA65)),
+		Kind: "sig", Cfg: m{"variant": "NO_PREFIX"}, Cost: 1, Big: true})
+	add(Target{Name: "JWT-MLDSA87", Class: "jwtsig", Params: kp(jwtmldsa.NewParameters(jwtmldsa.IgnoredKID, jwtmldsa.MLDSA87)),
+		Kind: "sig", Cfg: m{"variant": "NO_PREFIX"}, Cost: 1, Big: true, Full: true})
+	add(Target{Name: "JWT-PS384-2048", Class: "jwtsig", Kind: "sig", Cfg: m{"variant": "NO_PREFIX"}, Cost: 1, Slow: true, Full: true,
+		Params: kp(jwtrsassapss.NewParameters(jwtrsassapss.ParametersOpts{ModulusSizeInBits: 2048, PublicExponent: 65537,
+			Algorithm: jwtrsassapss.PS384, KidStrategy: jwtrsassapss.IgnoredKID}))})
+	add(Target{Name: "JWT-PS512-2048", Class: "jwtsig", Kind: "sig", Cfg: m{"variant": "NO_PREFIX"}, Cost: 1, Slow: true, Full: true,
+		Params: kp(jwtrsassapss.NewParameters(jwtrsassapss.ParametersOpts{ModulusSizeInBits: 2048, PublicExponent: 65537,
+			Algorithm: jwtrsassapss.PS512, KidStrategy: jwtrsassapss.Base64EncodedKeyIDAsKID}))})
 	add(Target{Name: "JWT-ES256", Class: "jwtsig", Params: kp(jwtecdsa.NewParameters(jwtecdsa.IgnoredKID, jwtecdsa.ES256)),
 		Kind: "sig", Cfg: m{"variant": "NO_PREFIX"}})
 	add(Target{Name: "JWT-PS256-2048", Class: "jwtsig", Kind: "sig", Cfg: m{"variant": "NO_PREFIX"}, Cost: 1, Slow: true,
@@ -356,6 +384,44 @@ func Import(b []byte) *keyset.Handle {
 	h, err := insecurecleartextkeyset.Read(keyset.NewBinaryReader(bytes.NewReader(b)))
 	if err != nil {
 		vt.Fatal("import keyset: %v", err)
+	}
+	return h
+}
+
+// KeyBytes returns what Rebuild needs of a NoReadback key: its private key bytes and key id.
+func KeyBytes(h *keyset.Handle) ([]byte, uint32) {
+	e, err := h.Primary()
+	if err != nil {
+		vt.Fatal("primary: %v", err)
+	}
+	k, ok := e.Key().(*mldsa.PrivateKey)
+	if !ok {
+		vt.Fatal("KeyBytes: unsupported key type %T", e.Key())
+	}
+	return k.PrivateKeyBytes().Data(insecuresecretdataaccess.Token{}), e.KeyID()
+}
+
+// Rebuild makes a NEW handle of the same NoReadback key from its bytes (through keyset.Manager.AddKey).
+func Rebuild(t *Target, keyBytes []byte, id uint32) *keyset.Handle {
+	p, ok := t.Params.(*mldsa.Parameters)
+	if !ok {
+		vt.Fatal("Rebuild: unsupported parameters %T", t.Params)
+	}
+	k, err := mldsa.NewPrivateKey(secretdata.NewBytesFromData(keyBytes, insecuresecretdataaccess.Token{}), id, p)
+	if err != nil {
+		vt.Fatal("Rebuild: %v", err)
+	}
+	mg := keyset.NewManager()
+	kid, err := mg.AddKey(k)
+	if err != nil {
+		vt.Fatal("Rebuild AddKey: %v", err)
+	}
+	if err := mg.SetPrimary(kid); err != nil {
+		vt.Fatal("Rebuild SetPrimary: %v", err)
+	}
+	h, err := mg.Handle()
+	if err != nil {
+		vt.Fatal("Rebuild Handle: %v", err)
 	}
 	return h
 }
